@@ -5,6 +5,7 @@ import (
 
 	"github.com/zenon-network/go-zenon/common/types"
 	"github.com/zenon-network/go-zenon/vm/embedded"
+	"github.com/zenon-network/go-zenon/vm/embedded/definition"
 )
 
 func init() { collectors = append(collectors, collectC17) }
@@ -44,6 +45,26 @@ func collectC17() {
 		cL("SporkTable"+names[r], pairs)
 		cL("SporkContracts"+names[r], cs)
 	}
+	// well-known features, by name: encoded (contract, selector) of one method per spork-gated feature
+	feature := func(coq string, c types.Address, method string) {
+		for _, e := range embedded.VerifMethodTables()[3] {
+			if e.Contract == c && e.Name == method && e.Selector != nil {
+				cI(coq, idx[c]<<32+int64(binary.BigEndian.Uint32(e.Selector)))
+				return
+			}
+		}
+		panic("feature method not callable in the htlc table: " + method)
+	}
+	feature("FeaturePlasmaFuse", types.PlasmaContract, definition.FuseMethodName)
+	feature("FeatureSporkActivate", types.SporkContract, definition.SporkActivateMethodName)
+	feature("FeatureAcceleratorCreateProject", types.AcceleratorContract, definition.CreateProjectMethodName)
+	feature("FeatureLiquidityFund", types.LiquidityContract, definition.FundMethodName)
+	feature("FeaturePillarCollectReward", types.PillarContract, definition.CollectRewardMethodName)
+	feature("FeatureBridgeWrapToken", types.BridgeContract, definition.WrapTokenMethodName)
+	feature("FeatureBridgeRedeem", types.BridgeContract, definition.RedeemUnwrapMethodName)
+	feature("FeatureLiquidityStake", types.LiquidityContract, definition.LiquidityStakeMethodName)
+	feature("FeatureHtlcCreate", types.HtlcContract, definition.CreateHtlcMethodName)
+	feature("FeatureHtlcUnlock", types.HtlcContract, definition.UnlockHtlcMethodName)
 }
 
 func sortI64(a []int64) {
